@@ -5,6 +5,7 @@ package verifsim
 // C07 — LRU cache contract (operation histories; the multi-client half is C04's LRU mode).
 
 import (
+	"strings"
 	"encoding/json"
 	"fmt"
 
@@ -185,11 +186,101 @@ func genC03(c *Ctx) any {
 	if r.Chance(1, 4) {
 		cs.Open.Audit = true
 	}
+	manyValues := r.Chance(1, 12)
+	if manyValues {
+		// more than a thousand bitmaps (batched preloading, cache churn): a unique-per-row column
+		cs.Data.Spec.N = []int{1001, 1002, 1500, 2001, 2600}[r.Intn(5)]
+		cs.Data.Spec.Unique = "u"
+		cs.Open.Preload = r.Chance(2, 3)
+	}
 	si := infoOf(cs.Data.Spec.Expand())
 	cs.Queries = relatedQueries(r, si, r.Range(5, 60))
+	if manyValues {
+		// one query that looks at every single value
+		all := &Query{Expr: Not(Eq("u", "no such row")), GroupBy: []S{"u"}}
+		cs.Queries = append([]*Query{all}, cs.Queries...)
+		cs.Queries = append(cs.Queries, all)
+	}
 	cs.Morph = r.Chance(1, 4)
 	cs.Scribble = r.Chance(1, 4)
+	if r.Chance(1, 10) {
+		if rows, qs := spliceCase(r); rows != nil {
+			cs.Data = Dataset{Rows: rows}
+			cs.Queries = qs
+			cs.Morph = false
+			if cs.Open.Cache == "" || cs.Open.CacheBytes < 1<<20 {
+				cs.Open.Cache, cs.Open.CacheBytes, cs.Open.Lossy = "lru", 64<<20, 0
+			}
+		}
+	}
 	return cs
+}
+
+// spliceCase builds a dataset and a history around column names and values that SPELL the printed form of
+// expression syntax: whatever the library prints for `colA = valA <op> colB = valB` is cut so that one single
+// comparison on a crafted column (or against a crafted value) prints the very same text. A result cache that keys
+// on printed text then confuses two queries of different meaning. The printed form is taken from the library's
+// own String() at generation time; if it quotes or escapes names (so that no such name exists) the case is not
+// generated.
+func spliceCase(r *simrt.Rand) ([]Row, []*Query) {
+	pr := func(e *Expr) (s string) {
+		_ = guard(func() { s = (&Query{Expr: e}).ToUpdog().Expr.String() })
+		return s
+	}
+	op := []string{"and", "or"}[r.Intn(2)]
+	nary := func(kids ...*Expr) *Expr { return &Expr{Op: op, Kids: kids} }
+	const a, va, b, vb = "colA", "valA", "colB", "valB"
+	whole := pr(nary(Eq(a, va), Eq(b, vb)))
+	la, lb := pr(Eq(a, va)), pr(Eq(b, vb))
+	i := strings.Index(whole, la)
+	if whole == "" || la == "" || lb == "" || i < 0 {
+		return nil, nil
+	}
+	j := strings.Index(whole[i+len(la):], lb)
+	if j < 0 {
+		return nil, nil
+	}
+	j += i + len(la)
+	var rows []Row
+	var qs []*Query
+	two := nary(Eq(a, va), Eq(b, vb))
+	// (1) a crafted column NAME
+	if pa, pb := strings.Index(la, a), strings.Index(lb, b); pa >= 0 && pb >= 0 {
+		n := whole[i+pa : j+pb+len(b)]
+		if !strings.Contains(n, "\x00") && pr(nary(Eq(n, vb))) == whole {
+			for k := 0; k < 24; k++ {
+				h := r.U64()
+				row := Row{{a, S([]string{va, "other"}[h&1])}, {b, S([]string{vb, "other"}[h>>1&1])}}
+				if h>>2&3 != 0 {
+					row = append(row, [2]S{S(n), S([]string{vb, "x"}[h>>4&1])})
+				}
+				rows = append(rows, row)
+			}
+			one := nary(Eq(n, vb))
+			qs = append(qs, &Query{Expr: two}, &Query{Expr: one}, &Query{Expr: Not(one)}, &Query{Expr: Not(two)},
+				&Query{Expr: one, GroupBy: []S{a}}, &Query{Expr: two, GroupBy: []S{a}}, &Query{Expr: Or(one, Eq(a, "other"))}, &Query{Expr: Or(two, Eq(a, "other"))})
+		}
+	}
+	// (2) a crafted VALUE
+	if pva, pvb := strings.LastIndex(la, va), strings.LastIndex(lb, vb); pva >= 0 && pvb >= 0 {
+		w := whole[i+pva : j+pvb+len(vb)]
+		if pr(nary(Eq(a, w))) == whole {
+			for k := 0; k < 24; k++ {
+				h := r.U64()
+				rows = append(rows, Row{{a, S([]string{va, w, "other"}[h%3])}, {b, S([]string{vb, "other"}[h>>8&1])}})
+			}
+			one := nary(Eq(a, w))
+			qs = append(qs, &Query{Expr: two}, &Query{Expr: one}, &Query{Expr: Not(two)}, &Query{Expr: Not(one)}, &Query{Expr: one, GroupBy: []S{b}}, &Query{Expr: two, GroupBy: []S{b}})
+		}
+	}
+	if len(qs) == 0 {
+		return nil, nil
+	}
+	// both orders occur: the history is the list, then its reverse
+	for k := len(qs) - 1; k >= 0; k-- {
+		qs = append(qs, qs[k])
+	}
+	return rows, qs
 }
 
 func runC03(c *Ctx, body json.RawMessage) *Verdict {
